@@ -112,7 +112,8 @@ class C06Bounded(Bounded):
                 {"title": "C9", "correlation": {"type": "value_count", "rules": ["p", "n"], "timespan": "30s", "group-by": ["User", "Host"], "condition": {"neq": 1, "field": ["x", "y"]}, "aliases": {"Host": {"p": "h1", "n": "h2"}}, "generate": True}}]
         for kind, cls, doc in (("rule", SigmaRule, RULE_OK), ("correlation", SigmaCorrelationRule, CORR), ("correlation", SigmaCorrelationRule, CORR2), ("correlation", SigmaCorrelationRule, CORR3), ("filter", SigmaFilter, FILT),
                                *[("correlation", SigmaCorrelationRule, m) for m in more],
-                               ("rule", SigmaRule, {**RULE_OK, "date": datetime.date(2024, 1, 2), "modified": "2024/01/03"})):
+                               ("rule", SigmaRule, {**RULE_OK, "date": datetime.date(2024, 1, 2), "modified": "2024/01/03"}),
+                               ("rule", SigmaRule, {**RULE_OK, "title": "LS", "logsource": {"category": "c", "definition": "needs audit policy x", "myattr": "x", "other": "y"}})):
             ev += 1
             nontriv += 1
             try:
@@ -137,6 +138,23 @@ class C06Bounded(Bounded):
             if norm(d1) != norm(d2) or norm(d1) != norm(d3):
                 diff = [k for k in set(norm(d1)) | set(norm(d2)) if norm(d1).get(k) != norm(d2).get(k) or norm(d1).get(k) != norm(d3).get(k)]
                 fail("document", f"{kind} document {doc.get('title')}: dict form differs after reload in {diff}: {[(norm(d1).get(k), norm(d2).get(k), norm(d3).get(k)) for k in diff][:2]}", [kind])
+        # --- rules loaded from files (they carry a source location): the dict form is that of the same document loaded from a dict
+        import tempfile, shutil, os
+        from sigma.collection import SigmaCollection
+        tmpd = tempfile.mkdtemp(prefix="c06_")
+        try:
+            for i, doc in enumerate((RULE_OK, {**RULE_OK, "title": "LS", "logsource": {"category": "c", "definition": "d", "myattr": "x"}})):
+                ev += 1
+                nontriv += 1
+                open(os.path.join(tmpd, f"r{i}.yml"), "w").write(yaml.safe_dump(norm(SigmaRule.from_dict(copy.deepcopy(doc)).to_dict())))
+            for r in SigmaCollection.load_ruleset([tmpd]).rules:
+                dfile = r.to_dict()
+                dplain = SigmaRule.from_dict(copy.deepcopy(dfile)).to_dict()
+                if norm(dfile) != norm(dplain):
+                    diff = [k for k in set(dfile) | set(dplain) if norm(dfile).get(k) != norm(dplain).get(k)]
+                    fail("document-from-file", f"rule {r.title!r} loaded from a file: dict form differs after reload in {diff}: {[(dfile.get(k), dplain.get(k)) for k in diff][:2]}", ["file", r.title])
+        finally:
+            shutil.rmtree(tmpd, ignore_errors=True)
         # --- after a single transformation: fails with a Sigma error, or reloads to the same queries
         transformations = [{"type": "field_name_mapping", "mapping": {"f": "g"}}, {"type": "field_name_mapping", "mapping": {"f": ["g", "h"]}}, {"type": "field_name_prefix", "prefix": "p."},
                            {"type": "field_name_suffix", "suffix": ".s"}, {"type": "drop_detection_item", "field_name_conditions": [{"type": "include_fields", "fields": ["g2"]}]},
@@ -147,7 +165,7 @@ class C06Bounded(Bounded):
                      {"title": "t", "logsource": {"category": "c"}, "detection": {"sel": {"f|fieldref": "f", "f2|expand": "%a%"}, "condition": "sel"}},
                      {"title": "t", "logsource": {"category": "c"}, "detection": {"sel": {"x|fieldref": "f", "y|fieldref|startswith": "f"}, "condition": "sel"}},
                      {"title": "t", "logsource": {"category": "c"}, "detection": {"sel": {"Hashes|contains": "MD5=0123"}, "lst": [{"f": 1}, {"f|re": "a+"}], "condition": "sel or lst"}}]
-        import json, os
+        import json
         kfile = os.path.join(VERIF, "known", "c06_after_transformation.json")
         KNOWN_T = set(tuple(x) for x in json.load(open(kfile))) if os.path.exists(kfile) else set()
         failing_t = []
